@@ -12,6 +12,8 @@ Decided:
              in-place modification afterwards;
  ZERO-OPTION   numeric options whose range contains 0 are read with kwargs.get(name, default), never ``get(name) or default``.
 Not decided: that integrating the gyroscopes reproduces the trajectory (numerical), the random trajectory generator.
+Added after the seeding rounds (DESIGN.md 6.6-6.8):
+ GROUND-TRUTH.dt / .yaw / .align and the same-source rule: time step 1/frequency, yaw in degrees converted with DEG2RAD, the N-1 rates follow one leading row.
 """
 import ast
 import numpy as np
